@@ -600,16 +600,22 @@ impl Oracle {
     /// the marker line under the reported line must put its first `^` under the reported column
     fn caret(&mut self, chan: &str, src: &str, out: &str, line: usize, col: usize, radius: usize) {
         let src = src.strip_prefix('\u{feff}').unwrap_or(src);
-        let Some(src_line) = src.split('\n').nth(line - 1) else { return };
-        let line_start_byte = src.split('\n').take(line - 1).map(|l| l.len() + 1).sum::<usize>();
-        let src_line = src_line.strip_suffix('\r').unwrap_or(src_line);
+        // lines as YAML (and the reported location) counts them: LF, CRLF and a lone CR all end a line
+        let yl = yaml_lines(src);
+        let Some(&(line_start_byte, src_line)) = yl.get(line - 1) else { return };
+        let lone_cr_before = { let b = src.as_bytes(); (0..b.len()).any(|i| b[i] == b'\r' && b.get(i + 1) != Some(&b'\n') && i < line_start_byte + src_line.len() + 1) };
         let narrow = |c: char| (c.is_ascii() && !c.is_ascii_control()) || "éßü…\u{a0}".contains(c);
         if !src_line.chars().all(|c| narrow(c) || is_forbidden(c)) { self.count("caret.skipped_wide"); return; }
         // annotate-snippets trims lines wider than its terminal width itself (`...`): out of our hands
         if src_line.chars().count() > 100 && radius > 48 { self.count("caret.skipped_renderer_trim"); return; }
         let lines: Vec<&str> = out.lines().collect();
         let prefix = format!("{line} |");
-        let Some(i) = lines.iter().position(|l| l.trim_start().starts_with(&prefix)) else { return };
+        let Some(i) = lines.iter().position(|l| l.trim_start().starts_with(&prefix)) else {
+            if lone_cr_before && out.contains(" | ") {
+                self.fail("C17-lone-cr-line-break", &format!("channel {chan}: the reported line {line} is not among the lines shown"), &hex(src), &hex(out), "the line the location refers to");
+            }
+            return
+        };
         let shown = lines[i];
         let Some(marker) = lines.get(i + 1) else { return };
         let Some(bar_shown) = shown.find('|') else { return };
@@ -629,7 +635,7 @@ impl Oracle {
         let evicted = chan.starts_with("reader/") && src.len() > h::RING_BUFFER_SIZE && line_start_byte < src.len() - h::RING_BUFFER_SIZE;
         self.checks += 1;
         if pos != expected {
-            let id = if evicted { "C17-reader-window-starts-mid-line" } else { "C17-caret-column" };
+            let id = if lone_cr_before { "C17-lone-cr-line-break" } else if evicted { "C17-reader-window-starts-mid-line" } else { "C17-caret-column" };
             self.fail(id, &format!("channel {chan}: marker at display offset {pos}, expected {expected} (line {line} column {col} radius {radius})"),
                       &hex(src), &hex(out), "marker under the reported column");
         } else {
@@ -639,7 +645,7 @@ impl Oracle {
                 let want = src_line.chars().nth(col - 1).unwrap();
                 let want = if is_forbidden(want) { if (want as u32) < 0x80 { ' ' } else { '\u{a0}' } } else { want };
                 if content.get(pos).copied() != Some(want) && want != '\t' {
-                    let id = if evicted { "C17-reader-window-starts-mid-line" } else { "C17-caret-character" };
+                    let id = if lone_cr_before { "C17-lone-cr-line-break" } else if evicted { "C17-reader-window-starts-mid-line" } else { "C17-caret-character" };
                     self.fail(id, &format!("channel {chan}: character above the marker is {:?}, source has {:?} (line {line} column {col})", content.get(pos), want),
                               &hex(src), &hex(out), "marker under the character in the reported column");
                 }
@@ -718,6 +724,20 @@ impl Oracle {
 }
 
 /// documents that make the typed deserializers fail; `true` = the error message reflects input text
+/// (start byte, content without the break) of every line, with the YAML line breaks LF, CRLF and lone CR
+fn yaml_lines(src: &str) -> Vec<(usize, &str)> {
+    let b = src.as_bytes();
+    let mut v = Vec::new();
+    let (mut start, mut i) = (0usize, 0usize);
+    while i < b.len() {
+        if b[i] == b'\n' { v.push((start, &src[start..i])); i += 1; start = i; }
+        else if b[i] == b'\r' { v.push((start, &src[start..i])); i += if b.get(i + 1) == Some(&b'\n') { 2 } else { 1 }; start = i; }
+        else { i += 1; }
+    }
+    v.push((start, &src[start..]));
+    v
+}
+
 fn oracle_documents(rng: &mut Rng, thorough: bool) -> Vec<(String, bool)> {
     let mut docs: Vec<(String, bool)> = Vec::new();
     // payloads: terminal escape sequences, raw and written as YAML escapes
@@ -743,7 +763,7 @@ fn oracle_documents(rng: &mut Rng, thorough: bool) -> Vec<(String, bool)> {
         docs.push((format!("'{p}': 1\n'{p}': 2\n"), true));
     }
     // CRLF, lone CR, multi-byte around the error column, long lines
-    for body in ["count: é…x\r\nname: ok\r\n", "name: ok\r\ncount: 漢字\r\nflag: true\r\n", "a\rb: 1\n", "name: é😀\ncount: ß…ü\n",
+    for body in ["count: é…x\r\nname: ok\r\n", "name: ok\r\ncount: 漢字\r\nflag: true\r\n", "a\rb: 1\n", "name: x\rcount: zz\nflag: true\nkind: Alpha\n", "name: x\rflag: true\rcount: zz\r", "name: x\r\nflag: true\rcount: [1\n", "name: é😀\ncount: ß…ü\n",
                  "\u{feff}count: bad\n", "\u{feff}name: x\r\ncount: [1\n", "count: [1, 2\n", "name: 'unterminated\n", "\tcount: 1\n",
                  "name: ok\ncount: 1\nflag: maybe\nkind: Alpha\n", "---\nname: a\n---\nname: b\n", "name: *missing\n", ""] {
         docs.push((body.to_string(), false));
